@@ -53,6 +53,12 @@ def run_one(mu, slot):
             elif s.count(mu['old']) != 1:
                 return dict(id=mu['id'], ok=False, status='anchor text occurs %d times (mutant out of date)' % s.count(mu['old']), keys=[])
             open(path, 'w').write(s.replace(mu['old'], mu['new']))
+            for f2, o2, n2 in mu.get('also', []):
+                p2 = os.path.join(scratch, 'crates', 'kira', 'src', f2)
+                s2 = open(p2).read()
+                if o2 not in s2:
+                    return dict(id=mu['id'], ok=False, status='anchor text missing in %s (mutant out of date)' % f2, keys=[])
+                open(p2, 'w').write(s2.replace(o2, n2))
         ev = os.path.join(scratch, 'evidence')
         env = dict(os.environ, KV_REPO=scratch, KV_EVIDENCE=ev, KV_KEEP_FACTS='1', KV_NO_SELFTEST='1',
                    KV_TARGET=os.path.join(VERIF, '.cache', 'target-scratch-%d' % slot))
